@@ -27,6 +27,8 @@ class Tracer:
         self.mw_records = []
         self.record_env = False
         self.env_records = []
+        self.check_input_purity = False     # C20: deep copy of every state.step input, compared after the call
+        self.input_mutations = []
 
     def codec_for(self, instance, cfg):
         c = self.codecs.get(id(instance))
@@ -42,7 +44,16 @@ class Tracer:
         tm = codec.tm(action.time_machine)
         rec = jsl.recorder()
         rec.want_pre = self.want_pre
+        snap = None
+        if self.check_input_purity:
+            import copy
+            snap = copy.deepcopy(state)
         out, r = jsl.impl_step(codec, config, state, action, rec)
+        if snap is not None and (state != snap or codec.state(state) != pre):
+            diff = [f.name for f in __import__("dataclasses").fields(state) if getattr(state, f.name) != getattr(snap, f.name)]
+            self.input_mutations.append({"record": len(self.records), "pre": pre, "trs": trs, "fields": diff,
+                                         "before": repr([getattr(snap, f) for f in diff])[:600],
+                                         "after": repr([getattr(state, f) for f in diff])[:600]})
         final = codec.state(r.state) if (r is not None and r.success) else None
         self.records.append(StepRecord(codec, pre, trs, tm, out, r if self.keep_objects else None,
                                        state if self.keep_objects else None,
